@@ -67,6 +67,13 @@ def ref_hop(fmt, model):
     return out
 
 
+STYLE_SPACER = "\x01"
+
+
+def _vis(l):
+    return "" if l == STYLE_SPACER else l
+
+
 def build(model):
     from pycaption import Caption, CaptionList, CaptionNode, CaptionSet
 
@@ -75,10 +82,18 @@ def build(model):
         cl = CaptionList()
         for s, e, lines in cues:
             nodes = []
+            opened = 0
             for i, ln in enumerate(lines):
                 if i:
                     nodes.append(CaptionNode.create_break())
-                nodes.append(CaptionNode.create_text(ln))
+                if ln == STYLE_SPACER:
+                    # an otherwise empty line that holds the opening node of a colour span (closed at the caption's end):
+                    # no text, and nothing most writers can render
+                    nodes.append(CaptionNode.create_style(True, {"color": "red"}))
+                    opened += 1
+                else:
+                    nodes.append(CaptionNode.create_text(ln))
+            nodes += [CaptionNode.create_style(False, {"color": "red"})] * opened
             cl.append(Caption(s, e, nodes))
         caps[lang] = cl
     return CaptionSet(caps)
@@ -113,7 +128,7 @@ def same(obs, model):
         if len(co) != len(cm):
             return "cue-count"
         for (s, e, lines), (ms, me, mlines) in zip(co, cm):
-            if tuple(lines) != tuple(parsers.norm_line(l) for l in mlines if parsers.norm_line(l)):
+            if tuple(lines) != tuple(parsers.norm_line(_vis(l)) for l in mlines if parsers.norm_line(_vis(l))):
                 return "text"
             if s != ms:
                 return "start"
@@ -189,7 +204,7 @@ def single_models(tier):
                 if (i + r) % 5 == 4:
                     # a spacer line (blank / white-space only) between two visible lines: dropped by the
                     # white-space-normalised comparison, but it must not cut the cue
-                    lines = (tok, ["", " ", "\u00a0"][(i + r) % 3], TOKENS[(i + r + 2) % len(TOKENS)])
+                    lines = (tok, ["", " ", "\u00a0", STYLE_SPACER][(i + r) % 4], TOKENS[(i + r + 2) % len(TOKENS)])
                 cues.append((s, e, lines))
             out.append([("en-US", cues)])
     return out
